@@ -77,8 +77,12 @@ Section Spec10.
     | Some items => existsb (fun mi => mpath_is mi "skip" && val_is (TOption TBool) true mi) items
     | None => false
     end.
+  (** a word variant is one that says `word` / `word = true`; `word = false` opts out *)
   Definition variant_has_word (rv : rvariant) : bool :=
-    match all_items (rv_attrs rv) with Some items => Nat.ltb 0 (count "word" items) | None => false end.
+    match all_items (rv_attrs rv) with
+    | Some items => existsb (fun mi => mpath_is mi "word" && val_is (TOption (TSpanned TBool)) true mi) items
+    | None => false
+    end.
 
   Definition variant_wf (rv : rvariant) : bool :=
     match all_items (rv_attrs rv) with
@@ -89,6 +93,7 @@ Section Spec10.
         && forallb variant_value_ok items
         && (Nat.eqb (count "word" items) 0 || match rv_style rv with StUnit => true | _ => false end)
         && forallb (fun rf => field_wf (rf_attrs rf)) (rv_fields rv)
+        && Nat.leb (List.length (filter (fun rf => is_flatten_field (rf_attrs rf)) (rv_fields rv))) 1      (* more than one flatten field *)
         && (match rv_style rv with
             | StTuple => Nat.eqb (List.length (rv_fields rv)) 1 || variant_skipped rv
             | _ => true
